@@ -24,7 +24,7 @@ Lemma zmax0_fresh l y : zmax0 l + 1 <= y -> ~ In y l.
 Proof. intros H Hin. apply zmax0_ge in Hin. lia. Qed.
 
 (* ------------------------------------------------------------------ keys after a rename *)
-Lemma rename_tensor_keys n a c n' : WF0 n -> rename_tensor n a c = Some n' ->
+Lemma rename_tensor_keys n a c n' : WF0 n -> rename_tensor_priv n a c = Some n' ->
   In a (dkeys (tensors n)) /\ ~ In c (dkeys (tensors n)) /\
   dkeys (tensors n') = filter (fun x => negb (Z.eqb x a)) (dkeys (tensors n)) ++ [c] /\
   dkeys (bonds n') = dkeys (bonds n).
@@ -50,7 +50,7 @@ Lemma relabel_tensors_WF0 o ord next tmp o1 tmp1 :
 Proof.
   revert o next tmp. induction ord as [|a ord IH]; intros o next tmp W H.
   - cbn in H. injection H as <- <-. auto.
-  - cbn [relabel_tensors] in H. destruct (rename_tensor o a next) as [o'|] eqn:R; [|discriminate].
+  - cbn [relabel_tensors] in H. destruct (rename_tensor_priv o a next) as [o'|] eqn:R; [|discriminate].
     pose proof (rename_tensor_WF0 o a next o' W R) as W'.
     destruct (rename_tensor_keys o a next o' W R) as [_ [_ [_ Kb]]].
     destruct (IH o' _ _ W' H) as [W1 Kb1]. split; [assumption | congruence].
@@ -63,7 +63,7 @@ Lemma relabel_tensors_keys o ord next tmp o1 tmp1 k :
 Proof.
   revert o next tmp. induction ord as [|a ord IH]; intros o next tmp W H Hk.
   - cbn in H. injection H as <- <-. left. split; [assumption | intros []].
-  - cbn [relabel_tensors] in H. destruct (rename_tensor o a next) as [o'|] eqn:R; [|discriminate].
+  - cbn [relabel_tensors] in H. destruct (rename_tensor_priv o a next) as [o'|] eqn:R; [|discriminate].
     pose proof (rename_tensor_WF0 o a next o' W R) as W'.
     destruct (rename_tensor_keys o a next o' W R) as [_ [_ [Kt _]]].
     destruct (IH o' _ _ W' H Hk) as [[Hk' Hno]|Hr]; [|right; lia].
@@ -79,7 +79,7 @@ Lemma relabel_tensors_keep o ord next tmp o1 tmp1 x :
 Proof.
   revert o next tmp. induction ord as [|a ord IH]; intros o next tmp W H Hx Hno.
   - cbn in H. injection H as <- _. assumption.
-  - cbn [relabel_tensors] in H. destruct (rename_tensor o a next) as [o'|] eqn:R; [|discriminate].
+  - cbn [relabel_tensors] in H. destruct (rename_tensor_priv o a next) as [o'|] eqn:R; [|discriminate].
     eapply IH; [eapply rename_tensor_WF0; eauto | exact H | | intros E; apply Hno; right; exact E].
     destruct (rename_tensor_keys o a next o' W R) as [_ [_ [Kt _]]]. rewrite Kt.
     apply in_or_app. left. apply filter_In. split; [assumption|].
@@ -91,7 +91,7 @@ Lemma relabel_tensors_tmp_keep o ord next tmp o1 tmp1 :
 Proof.
   revert o next tmp. induction ord as [|a ord IH]; intros o next tmp H Hno.
   - cbn in H. injection H as _ <-. reflexivity.
-  - cbn [relabel_tensors] in H. destruct (rename_tensor o a next) as [o'|]; [|discriminate].
+  - cbn [relabel_tensors] in H. destruct (rename_tensor_priv o a next) as [o'|]; [|discriminate].
     rewrite (IH _ _ _ H (fun E => Hno (or_intror E))).
     destruct (Z.eqb_spec a VT); [exfalso; apply Hno; left; assumption | reflexivity].
 Qed.
@@ -103,7 +103,7 @@ Lemma relabel_tensors_tmp o ord next tmp o1 tmp1 :
   next <= tmp1 /\ In tmp1 (dkeys (tensors o1)).
 Proof.
   revert o next tmp. induction ord as [|a ord IH]; intros o next tmp W H Hlt HV; [destruct HV|].
-  cbn [relabel_tensors] in H. destruct (rename_tensor o a next) as [o'|] eqn:R; [|discriminate].
+  cbn [relabel_tensors] in H. destruct (rename_tensor_priv o a next) as [o'|] eqn:R; [|discriminate].
   pose proof (rename_tensor_WF0 o a next o' W R) as W'.
   destruct (rename_tensor_keys o a next o' W R) as [_ [_ [Kt _]]].
   destruct (in_dec Z.eq_dec VT ord) as [Hin|Hnin].
@@ -377,7 +377,7 @@ Qed.
 (* ------------------------------------------------------------------ tracking the virtual tensor *)
 Definition tshape (n : net) (k : Z) : option (list nat) := option_map t_shape (dget k (tensors n)).
 
-Lemma tshape_rename_tensor n a c n' k : WF0 n -> rename_tensor n a c = Some n' ->
+Lemma tshape_rename_tensor n a c n' k : WF0 n -> rename_tensor_priv n a c = Some n' ->
   tshape n' k = if Z.eqb k c then tshape n a else if Z.eqb k a then None else tshape n k.
 Proof.
   intros W H. destruct (rename_tensor_spec n a c n' W H) as [t [Ht [Hc ->]]].
@@ -403,7 +403,7 @@ Lemma tshape_relabel_keep o ord next tmp o1 tmp1 x :
 Proof.
   revert o next tmp. induction ord as [|a ord IH]; intros o next tmp W H Hno Hlt Hx.
   - cbn in H. injection H as <- _. reflexivity.
-  - cbn [relabel_tensors] in H. destruct (rename_tensor o a next) as [o'|] eqn:R; [|discriminate].
+  - cbn [relabel_tensors] in H. destruct (rename_tensor_priv o a next) as [o'|] eqn:R; [|discriminate].
     rewrite (IH o' _ _ (rename_tensor_WF0 _ _ _ _ W R) H); try lia.
     + rewrite (tshape_rename_tensor _ _ _ _ x W R).
       destruct (Z.eqb_spec x next); [lia|]. destruct (Z.eqb_spec x a); [|reflexivity].
@@ -425,7 +425,7 @@ Lemma tshape_relabel_tmp o ord next tmp o1 tmp1 :
   tshape o1 tmp1 = tshape o VT.
 Proof.
   revert o next tmp. induction ord as [|a ord IH]; intros o next tmp W H ND Hlt HV; [destruct HV|].
-  cbn [relabel_tensors] in H. destruct (rename_tensor o a next) as [o'|] eqn:R; [|discriminate].
+  cbn [relabel_tensors] in H. destruct (rename_tensor_priv o a next) as [o'|] eqn:R; [|discriminate].
   pose proof (rename_tensor_WF0 _ _ _ _ W R) as W'. inversion ND; subst.
   assert (Hlt' : forall k, In k ord -> k < next + 1) by (intros k Hk; specialize (Hlt k (or_intror Hk)); lia).
   destruct HV as [->|HV].
@@ -677,7 +677,7 @@ Proof.
 Qed.
 
 (* ------------------------------------------------------------------ merge *)
-(** the joined open axes have equal dimensions (merge itself does not check this) *)
+(** the joined open axes have equal dimensions (merge checks this: merge_joins_dim_ok below) *)
 Definition joins_dim_ok (n o : net) (joins : list (nat * nat)) : Prop :=
   forall Sn So, shape n = Some Sn -> shape o = Some So ->
   forall j, In j joins -> exists d, nth_error Sn (fst j) = Some d /\ nth_error So (snd j) = Some d.
@@ -714,7 +714,7 @@ Inductive merge_stages (n o : net) (joins : list (nat * nat)) (n' : net) : Prop 
   (ms_inrange : forall j, In j joins -> (fst j < length (t_shape ms_vtn))%nat).
 
 
-Lemma rename_tensor_len n a c n' : WF0 n -> rename_tensor n a c = Some n' ->
+Lemma rename_tensor_len n a c n' : WF0 n -> rename_tensor_priv n a c = Some n' ->
   length (tensors n') = length (tensors n) /\ length (bonds n') = length (bonds n).
 Proof.
   intros W H. destruct (rename_tensor_spec n a c n' W H) as [t [Ht [Hc ->]]]. cbn [tensors bonds].
@@ -731,7 +731,7 @@ Lemma relabel_tensors_len o ord next tmp o1 tmp1 : WF0 o -> relabel_tensors o or
 Proof.
   revert o next tmp. induction ord as [|a ord IH]; intros o next tmp W H.
   - cbn in H. injection H as <- _. auto.
-  - cbn [relabel_tensors] in H. destruct (rename_tensor o a next) as [o'|] eqn:R; [|discriminate].
+  - cbn [relabel_tensors] in H. destruct (rename_tensor_priv o a next) as [o'|] eqn:R; [|discriminate].
     destruct (rename_tensor_len _ _ _ _ W R) as [A B].
     destruct (IH o' _ _ (rename_tensor_WF0 _ _ _ _ W R) H) as [A' B']. split; congruence.
 Qed.
@@ -809,14 +809,32 @@ Proof.
   - rewrite <- T4. exact Ht4.
   - exact DF.
   - reflexivity.
-  - intros j Hj. rewrite forallb_forall in FJ. specialize (FJ j Hj). apply andb_true_iff in FJ.
-    destruct FJ as [A _]. apply Nat.ltb_lt in A. exact A.
+  - intros j Hj. rewrite forallb_forall in FJ. specialize (FJ j Hj). rewrite !andb_true_iff in FJ.
+    destruct FJ as [[A _] _]. apply Nat.ltb_lt in A. exact A.
+Qed.
+
+(** an accepted merge has compared the dimensions of the joined axes (the code's own test
+    self.shape[joinax[0]] != other.shape[joinax[1]] -> ValueError) *)
+Lemma merge_joins_dim_ok n o joins ordT ordB n' :
+  merge n o joins ordT ordB = Some n' -> joins_dim_ok n o joins.
+Proof.
+  unfold merge, joins_dim_ok. intros H Sn So HSn HSo j Hj.
+  unfold shape in HSn, HSo. unfold num_open_axes in H.
+  destruct (dget VT (tensors n)) as [vtn|] eqn:Hn; [|discriminate]. cbn in HSn. injection HSn as <-.
+  destruct (dget VT (tensors o)) as [vto|] eqn:Ho; [|discriminate]. cbn in HSo. injection HSo as <-.
+  cbn [option_map] in H.
+  destruct joins as [|j0 joins]; [destruct Hj|].
+  destruct (forallb _ (j0 :: joins)) eqn:FJ; [|discriminate].
+  rewrite forallb_forall in FJ. specialize (FJ j Hj). rewrite !andb_true_iff in FJ. destruct FJ as [[A B] C].
+  apply Nat.ltb_lt in A, B. apply Nat.eqb_eq in C. unfold vshape in C. rewrite Hn, Ho in C.
+  unfold t_ndim in A, B.
+  exists (nth (fst j) (t_shape vtn) O). split; [apply nth_error_nth'; exact A | rewrite C; apply nth_error_nth'; exact B].
 Qed.
 
 Theorem merge_WF n o joins ordT ordB n' :
-  WF n -> WF o -> joins_dim_ok n o joins -> merge n o joins ordT ordB = Some n' -> WF n'.
+  WF n -> WF o -> merge n o joins ordT ordB = Some n' -> WF n'.
 Proof.
-  intros Wn Wo JD H. destruct (merge_stages_intro n o joins ordT ordB n' Wn Wo H)
+  intros Wn Wo H. pose proof (merge_joins_dim_ok n o joins ordT ordB n' H) as JD. destruct (merge_stages_intro n o joins ordT ordB n' Wn Wo H)
     as [vtn vto o2 tmp x2 n2 n3 amap n4 t3 Hvtn Hvto Wo2 _ _ DT DB HtmpV E2 Sx2 En2 W2 JF Ht3 DF T4 En Hr].
   set (S := t_shape vtn ++ t_shape vto) in *.
   assert (S2 : tshape n2 VT = Some S).
